@@ -346,7 +346,14 @@ pub fn apply<E: Elem>(t: &mut TooDee<E>, m: &mut Model<u32>, act: &Act, c: &mut 
             let n = if mode == 0 { claim - 1 } else { claim + 1 };
             let items = mk(n);
             let it = crate::engine::ledger::FaultIter::lying(items, claim);
-            let res = if row { guarded(|| t.insert_row(i, it)) } else { guarded(|| t.insert_col(i, it)) };
+            // a third argument of 1 selects push_row / push_col (which may have their own code path)
+            let push = a.get(2) == Some(&1);
+            let res = match (row, push) {
+                (true, false) => guarded(|| t.insert_row(i, it)),
+                (false, false) => guarded(|| t.insert_col(i, it)),
+                (true, true) => guarded(|| t.push_row(it)),
+                (false, true) => guarded(|| t.push_col(it)),
+            };
             let (nc, nr) = (t.num_cols(), t.num_rows());
             if nc.checked_mul(nr) == Some(t.data().len()) && (nc == 0) == (nr == 0) {
                 *m = Model::from_flat(nc, nr, &t.data().iter().map(|e| e.label()).collect::<Vec<_>>());
@@ -554,6 +561,8 @@ pub fn actions(c: usize, r: usize, copy: bool, leaks: bool) -> Vec<Act> {
         for i in 0..=c {
             v.push(Act::new("icl", &[i, mode]));
         }
+        v.push(Act::new("irl", &[r, mode, 1]));
+        v.push(Act::new("icl", &[c, mode, 1]));
     }
     for n in 0..=c + 1 {
         v.push(Act::new("pr", &[n]));
